@@ -609,6 +609,8 @@ h_NCvario(void)
     }
     int rec = (shape[0] == 0);
     int wr  = (s_x.x_op == XDR_ENCODE);
+    /* bound: a record write starts at most one record beyond the end (<= 2 fill records per NCcoordck call) */
+    H4V_ASSUME(!(rec && wr) || start[0] <= (long)v_numrecs + 1);
     /* geometry as NC_var_shape compiles it (C03_DSIZES_RM3) */
     dsizes[rank - 1] = C03_W;
     for (int i = 1; i >= 0; i--)
